@@ -179,6 +179,12 @@ def template_case(draw, max_tokens=6):
     opts = draw(st.permutations(OPT_NAMES))[:n]
     weights = ["arg"] * 12 + ["optarg"] * 12 + ["flag"] * 8 + ["out"] * 6 + ["optout"] * 6 + ["modify"]
     tokens = [draw(token(names[i], opts[i], draw(st.sampled_from(weights)))) for i in range(n)]
+    seen = set()
+    for i, t in enumerate(tokens):  # two outputs must not be told to write the same file
+        if t["kind"] == "out" and t.get("mod") == "$":
+            if t["tmpl"] in seen:
+                t["tmpl"] = f"o{i}" + t["tmpl"]
+            seen.add(t["tmpl"])
     add_out_refs(draw, tokens)
     case = dict(exe=draw(st.sampled_from(EXES)), tokens=tokens)
     case["values"] = draw(values_for(tokens))
